@@ -1,6 +1,7 @@
 import Driver.Util
 import Driver.Backoff
 import Driver.Wire
+import Driver.Codec
 
 /-! `drv`: one case per input line, one result per output line (see /verif/DESIGN.md, section 3.2). -/
 
@@ -11,7 +12,10 @@ def step (line : String) : String :=
   | "wdec" :: rest => Driver.Wire.run "wdec" rest
   | "benc" :: rest => Driver.Wire.run "benc" rest
   | "bdec" :: rest => Driver.Wire.run "bdec" rest
-  | _ => "bad-op"
+  | op :: rest =>
+    if ["senc", "yenc", "sdec", "ydec", "bdc", "bre", "crt", "dcp"].contains op then Driver.Codec.run op rest
+    else "bad-op"
+  | [] => "bad-op"
 
 partial def loop (h : IO.FS.Stream) (out : IO.FS.Stream) : IO Unit := do
   let line ← h.getLine
